@@ -6,12 +6,14 @@ import (
 	"errors"
 	"fmt"
 	"io"
+	"io/fs"
 	"math"
 	"math/rand"
 	"os"
 	"os/exec"
 	"path/filepath"
 	"regexp"
+	"sort"
 	"strconv"
 	"strings"
 	"syscall"
@@ -272,6 +274,26 @@ func c03Gen(seed int64, tier string, batch, i int) c03Input {
 		if r.Intn(4) == 0 {
 			in.Text = mut(in.Text)
 		}
+	case c == 14 && r.Intn(3) == 0:
+		// the less travelled entry points: Parse([]byte), ParseFS, ParseExecutable([]byte), ParseExecutableReader and ParseValue
+		// with readers that fail, ParseFS with hostile patterns and file systems whose Open / Read / Close fail
+		in.Entry = []string{"parse-bytes", "parse-fs", "exe-bytes", "exe-reader-fault", "value-reader-fault"}[r.Intn(5)]
+		in.Cat = "alt-entry-points"
+		switch in.Entry {
+		case "parse-bytes", "parse-fs":
+			in.Text = genSDL()
+			if r.Intn(2) == 0 {
+				in.Text = mut(in.Text)
+			}
+		case "exe-bytes", "exe-reader-fault":
+			in.Text = zoo.Requests[r.Intn(len(zoo.Requests))].Text
+			if r.Intn(2) == 0 {
+				in.Text = mut(in.Text)
+			}
+		default:
+			in.Text = mut(c03ValueCorpus[r.Intn(len(c03ValueCorpus))])
+		}
+		in.FaultAt, in.FaultK = r.Intn(len(in.Text)+1), r.Intn(3)
 	case c == 14:
 		in.Entry, in.Cat = "value", "value-mutated"
 		in.Text = mut(c03ValueCorpus[r.Intn(len(c03ValueCorpus))])
@@ -403,6 +425,106 @@ func (f *faultyReader) Read(p []byte) (int, error) {
 	}
 	return 1, nil
 }
+
+// faultyFS is an fs.FS over a map of files whose n-th Open, or the Read / Close of whose n-th opened file, fails.
+type faultyFS struct {
+	files                         map[string]string
+	failOpen, failRead, failClose int
+	opened                        int
+}
+
+func (f *faultyFS) Open(name string) (fs.File, error) {
+	if name == "." {
+		return &faultyDir{fs: f}, nil
+	}
+	content, has := f.files[name]
+	if !has {
+		return nil, &fs.PathError{Op: "open", Path: name, Err: fs.ErrNotExist}
+	}
+	n := f.opened
+	f.opened++
+	if n == f.failOpen {
+		return nil, &fs.PathError{Op: "open", Path: name, Err: errInjectedRead}
+	}
+	return &faultyFile{name: name, data: []byte(content), failRead: n == f.failRead, failClose: n == f.failClose}, nil
+}
+
+type faultyDir struct {
+	fs   *faultyFS
+	done bool
+}
+
+func (d *faultyDir) Stat() (fs.FileInfo, error) { return faultyInfo{name: ".", dir: true}, nil }
+func (d *faultyDir) Read([]byte) (int, error)   { return 0, io.EOF }
+func (d *faultyDir) Close() error               { return nil }
+func (d *faultyDir) ReadDir(n int) ([]fs.DirEntry, error) {
+	if d.done {
+		return nil, io.EOF
+	}
+	d.done = true
+	var names []string
+	for k := range d.fs.files {
+		names = append(names, k)
+	}
+	sort.Strings(names)
+	var out []fs.DirEntry
+	for _, k := range names {
+		out = append(out, fs.FileInfoToDirEntry(faultyInfo{name: k, size: int64(len(d.fs.files[k]))}))
+	}
+	return out, nil
+}
+
+type faultyFile struct {
+	name                string
+	data                []byte
+	pos                 int
+	failRead, failClose bool
+}
+
+func (f *faultyFile) Stat() (fs.FileInfo, error) {
+	return faultyInfo{name: f.name, size: int64(len(f.data))}, nil
+}
+func (f *faultyFile) Read(p []byte) (int, error) {
+	if f.failRead && f.pos >= len(f.data)/2 {
+		return 0, errInjectedRead
+	}
+	if f.pos >= len(f.data) {
+		return 0, io.EOF
+	}
+	n := copy(p, f.data[f.pos:])
+	if f.failRead && f.pos+n > len(f.data)/2 {
+		n = len(f.data)/2 - f.pos
+		if n <= 0 {
+			return 0, errInjectedRead
+		}
+	}
+	f.pos += n
+	return n, nil
+}
+func (f *faultyFile) Close() error {
+	if f.failClose {
+		return errInjectedRead
+	}
+	return nil
+}
+
+type faultyInfo struct {
+	name string
+	size int64
+	dir  bool
+}
+
+func (i faultyInfo) Name() string { return i.name }
+func (i faultyInfo) Size() int64  { return i.size }
+func (i faultyInfo) Mode() fs.FileMode {
+	if i.dir {
+		return fs.ModeDir | 0o755
+	}
+	return 0o644
+}
+func (i faultyInfo) ModTime() time.Time { return time.Time{} }
+func (i faultyInfo) IsDir() bool        { return i.dir }
+func (i faultyInfo) Sys() interface{}   { return nil }
 
 type faultyWriter struct {
 	n  int
@@ -596,6 +718,74 @@ func c03Exec(in c03Input) {
 			_ = t.SDL(true)
 			_ = t.String()
 			_ = ggql.Locate(t)
+		}
+	case "parse-bytes":
+		root := ggql.NewRoot(&zoo.Root{})
+		c03SetBudget(len(in.Text))
+		_ = root.Parse([]byte(in.Text))
+		c03Budget = 0
+		_ = root.SDL(false, true)
+	case "parse-fs":
+		root := ggql.NewRoot(&zoo.Root{})
+		// the document cut into files at random places (ParseFS joins them in map order), plus a faulty file system
+		fsys := &faultyFS{files: map[string]string{}, failOpen: -1, failRead: -1, failClose: -1}
+		rest := in.Text
+		for fi := 0; len(rest) > 0 && fi < 4; fi++ {
+			k := len(rest)
+			if fi < 3 {
+				k = r.Intn(len(rest) + 1)
+			}
+			fsys.files[fmt.Sprintf("f%d.graphql", fi)] = rest[:k]
+			rest = rest[k:]
+		}
+		fsys.files["other.txt"] = "not graphql {"
+		switch in.FaultK {
+		case 0:
+			fsys.failOpen = r.Intn(3)
+		case 1:
+			fsys.failRead = r.Intn(3)
+		default:
+			if r.Intn(2) == 0 {
+				fsys.failClose = r.Intn(3)
+			}
+		}
+		pats := [][]string{{"*.graphql"}, {"*"}, {"f0.graphql", "f0.graphql", "*.graphql"}, {"["}, {"**"}, {}, {"nomatch*"}, {"\\"}, {"f[0-9].graph?l"}, {"*.graphql", "[a-"}}[r.Intn(10)]
+		c03SetBudget(len(in.Text) + 64)
+		_ = root.ParseFS(fsys, pats...)
+		c03Budget = 0
+		_ = root.SDL(false, true)
+	case "exe-bytes":
+		root, _, err := zoo.NewRoot()
+		if err != nil {
+			panic(err)
+		}
+		c03SetBudget(len(in.Text))
+		exe, _ := root.ParseExecutable([]byte(in.Text))
+		c03Budget = 0
+		if exe != nil {
+			_ = exe.String()
+			c03SetBudget(len(in.Text))
+			_, _ = root.ResolveExecutable(exe, in.Op, in.Vars)
+			c03Budget, c03YieldBudget = 0, 0
+		}
+	case "exe-reader-fault":
+		root, _, err := zoo.NewRoot()
+		if err != nil {
+			panic(err)
+		}
+		c03SetBudget(len(in.Text))
+		exe, _ := root.ParseExecutableReader(&faultyReader{data: []byte(in.Text), at: in.FaultAt, kind: in.FaultK})
+		c03Budget = 0
+		if exe != nil {
+			_ = exe.String()
+		}
+	case "value-reader-fault":
+		c03SetBudget(len(in.Text))
+		v, err := ggql.ParseValue(&faultyReader{data: []byte(in.Text), at: in.FaultAt, kind: in.FaultK})
+		c03Budget = 0
+		if err == nil {
+			var b bytes.Buffer
+			_ = ggql.WriteSDLValue(&b, v, 0)
 		}
 	case "reader-sdl":
 		root := ggql.NewRoot(&zoo.Root{})
